@@ -855,3 +855,86 @@ LEVEL_TEXT = ("Machine-checked theorems (Coq 8.16, closed under the global conte
 LEVEL_NOTE = ("Partial: zsh/fish/PowerShell/elvish/nushell cannot be executed here and have no generator model (token "
               "oracle only); bash itself is validated by execution, not proved; known findings (see known_findings.json) "
               "are outside the proved class.")
+
+
+# ---- powershell / elvish generator models ------------------------------------------------------------------
+# Byte-exact Gallina models of clap_complete/src/aot/shells/{powershell,elvish}.rs (coq/theories/Complete/
+# {Powershell,Elvish}Model.v over the built tree of AotTree.v; the generic table specification and the coverage
+# theorems are in PathTable.v / {Powershell,Elvish}Proofs.v).  Two more correspondence streams: the script of the
+# extracted model must equal the real generator's script BYTE FOR BYTE (white space included) on every tree.
+AREAS = AREAS + ["elvish", "powershell"]
+TRUSTED = TRUSTED + [
+    "PowerShell / elvish generator models: extraction of Complete/{Powershell,Elvish}Model.v + Complete/TextTree.v "
+    "(ExtrOcamlBasic only), drivers ocaml/{powershell,elvish}_driver.ml (spec reader, UTF-8 decode/encode by the "
+    "extracted Base.Utf8); char::is_uppercase is a parameter of the PowerShell model (the driver supplies it: exact "
+    "on ASCII, Latin-1, Greek and Cyrillic capitals); the theorems hold for every such function",
+]
+
+
+def model_script_project(r):
+    """what the streams `elvish-model` / `powershell-model` compare: the script, byte for byte"""
+    if r is None:
+        return "none"
+    if not r.startswith("(shell"):
+        return r.split(" ")[0]
+    it = top_items(r)
+    return "shell %s\nscript %s" % (it["shell"][1], it["script"][1])
+
+
+def _model_stream(shell, tier, rng):
+    quick = tier == "quick"
+    cases, dist = [], {}
+    plans = [(None, 60 if quick else 900),
+             ({"alias_without_primary": True}, 10 if quick else 120),       # boundary of C16_<shell>_covers
+             ({"bin": "b in"}, 4 if quick else 40), ({"bin": "é-x"}, 4 if quick else 40)]
+    for prof, n in plans:
+        for _ in range(n):
+            c, st = make_case(rng, shell, tier, profile=prof)
+            cases.append(c)
+            merge(dist, st)
+    # non-ASCII short options in both cases (PowerShell appends a space to an uppercase short: char::is_uppercase)
+    h = hexs
+    cases.append("(aot %s %s (cmd %s (arg %s (s %s) (l %s)) (arg %s (s %s) (act flag)) (arg %s (s %s) (vsa %s) (act flag)) "
+                 "(cmd %s (va %s))))" % (shell, h("p"), h("p"), h("o1"), h("\u00c9"), h("lo1"), h("o2"), h("\u00e9"), h("o3"),
+                                         h("\u03a9"), h("\u00df"), h("n\u00e91"), h("\u00dcn\u00ef")))
+    dist["non-ascii-shorts-case"] = 1
+    return Stream(shell + "-model", cases, oracle=oracle, area=shell, project=model_script_project,
+                  nontrivial=nontrivial, describe=dist)
+
+
+_streams_without_models = streams
+
+
+def streams(tier, rng):
+    out = _streams_without_models(tier, rng)
+    out.append(_model_stream("elvish", tier, rng))
+    out.append(_model_stream("powershell", tier, rng))
+    return out
+
+
+# what MANIFEST.json says about C16 after round 2 (the strings above describe round 1)
+RULE = RULE + ("  Streams elvish-model / powershell-model: the same trees (+ options whose aliases have no primary, bin names with "
+               "a space / non-ASCII, non-ASCII shorts in both cases) on which the script of the extracted generator model "
+               "must equal the real script byte for byte.")
+TECHNIQUE = ("Coq proof (tree-walk soundness/completeness of utils.rs; the bash generator's transition and case tables; "
+             "byte-exact models of the PowerShell and elvish generators with coverage and lookup theorems -- all by "
+             "induction over command trees of any depth) + extracted-model/implementation correspondence (bash: script, "
+             "built tree, COMPREPLY under the installed bash; PowerShell/elvish: the script byte for byte) + token oracle "
+             "for all six shells")
+LEVEL_TEXT = (LEVEL_TEXT +
+              "  Round 2: executable Gallina transcriptions of shells/powershell.rs and shells/elvish.rs (every panic site "
+              "visible) are proved to compute one table specification; Command::build never runs out of fuel and generation "
+              "(set_bin_name + build + generator) writes a script for every command tree, deterministically; for every "
+              "tree whose nodes have bin names (what build establishes) and for EVERY path of names or visible "
+              "aliases, at every depth, the script contains the block keyed by the ';'-joined path with an entry for every "
+              "short/long spelling and visible alias of every option or flag that has the primary spelling and for every "
+              "name and visible alias of every subcommand; when sibling names are distinct and no name contains ';' every "
+              "block with that key carries exactly that node's entries, so the shell's lookup finds it.  The two recorded "
+              "findings (aliases without primary, possible values) and the empty bin name are proved class boundaries "
+              "(refutation witnesses).  The models' scripts are compared byte for byte with the real generators' on every "
+              "generated tree on every run.")
+LEVEL_NOTE = ("Partial: zsh/fish/nushell have no generator model (token oracle only); bash itself is validated by execution, "
+              "not proved; PowerShell and elvish are not installed (their scripts are modelled and analysed, not run); "
+              "Command::build and its text side are tied differentially (built-tree dump, byte-exact scripts; that build "
+              "never exhausts its fuel IS proved: C16_build_total); char::is_uppercase is a parameter of the PowerShell "
+              "model; known findings (see known_findings.json) are outside the proved class.")
